@@ -96,6 +96,7 @@ def run_threads(m, sc, log=None):
     sch = Sched(m, T, K, sc.stop, getattr(m, 'posmap', None))
     m.sched = sch
     cap0 = m.hard_loop_cap; m.hard_loop_cap = getattr(sc, 'mt_loop_cap', 200)
+    m.do_restrict = True
     scap0 = m.sym_loop_cap; m.sym_loop_cap = getattr(sc, 'mt_sym_loop_cap', 24)
     t0 = time.time()
     for r in range(1, K + 1):
@@ -111,7 +112,7 @@ def run_threads(m, sc, log=None):
             m.run_entry('vp_thread%d' % t)
             m.thread_exit()
             if log: log('    pass r%d t%d: %d terms, %d obligations, %.1fs' % (r, t, term.nterms(), len(m.obligations), time.time() - t0))
-    m.win = None; m.before = None; m.upto = None
+    m.win = None; m.before = None; m.upto = None; m.do_restrict = False
     m.hard_loop_cap = cap0; m.sym_loop_cap = scap0
     m.cur = m.threads[0]
     m.pass_no = K * T + 1
@@ -136,6 +137,9 @@ def replay(sc, model, violation):
     fixed = {int(k[3:]): v for k, v in model.items() if k.startswith('nd_') and k[3:].isdigit()}
     sched = {k: v for k, v in model.items() if k.startswith('cs_')}
     m, mod, tm = S.execute(sc, fixed=fixed, fixed_sched=sched)
+    if violation['kind'] == 'progress':
+        hits = [w for g, w in m.unwound if g is True]
+        return {'reproduced': bool(hits), 'how': ('concrete re-execution under schedule %s: the operation is still looping after the unrolled iterations (%s)' % (sched, hits[0][-80:])) if hits else 'not reproduced', 'output': '; '.join(hits[:2])}
     hits = [ob.where for ob in m.obligations if ob.cond is True and ob.kind == violation['kind']]
     same = [w for w in hits if w == violation['where']]
     symbolic_left = sum(1 for ob in m.obligations if ob.cond is not True)
